@@ -1,6 +1,7 @@
 package migrate
 
 import (
+	"fmt"
 	"go/ast"
 	"go/token"
 	"go/types"
@@ -167,25 +168,44 @@ func (p *Parser) parseCallExpr(call *ast.CallExpr, info *types.Info, wireAlias s
 		return nil, nil
 	}
 
+	// A parse function returns a nil pointer for a call it cannot read. It must not reach the caller
+	// wrapped in a non-nil WirePattern: the transformer would dereference it.
+	var pattern WirePattern
 	switch sel.Sel.Name {
 	case "NewSet":
 		return p.parseNewSet(call, info, wireAlias, filePath, varName), nil
 	case "Bind":
-		return p.parseBind(call, info, filePath), nil
+		if b := p.parseBind(call, info, filePath); b != nil {
+			pattern = b
+		}
 	case "Value":
-		return p.parseValue(call, info, filePath), nil
+		if v := p.parseValue(call, info, filePath); v != nil {
+			pattern = v
+		}
 	case "InterfaceValue":
-		return p.parseInterfaceValue(call, info, filePath), nil
+		if v := p.parseInterfaceValue(call, info, filePath); v != nil {
+			pattern = v
+		}
 	case "Struct":
-		return p.parseStruct(call, info, filePath), nil
+		if s := p.parseStruct(call, info, filePath); s != nil {
+			pattern = s
+		}
 	case "FieldsOf":
-		return p.parseFieldsOf(call, info, filePath), nil
-	case "Build":
+		if f := p.parseFieldsOf(call, info, filePath); f != nil {
+			pattern = f
+		}
+	default:
 		// wire.Build is handled separately in ExtractPatterns for function declarations
 		return nil, nil
 	}
-
-	return nil, nil
+	if pattern == nil {
+		return nil, &Warning{
+			Code:    WarnUnsupportedPattern,
+			Pos:     call.Pos(),
+			Message: fmt.Sprintf("Unsupported pattern: %s.%s in %s", wireAlias, sel.Sel.Name, filePath),
+		}
+	}
+	return pattern, nil
 }
 
 // parseNewSet parses wire.NewSet(...) pattern.
@@ -457,24 +477,22 @@ func (p *Parser) parseBuild(call *ast.CallExpr, funcDecl *ast.FuncDecl, info *ty
 	return build
 }
 
-// extractTypeFromNew extracts the type from new(T) expression.
+// extractTypeFromNew extracts the pointer type a wire call is given as its type argument: new(T), or,
+// as wire itself only asks for an expression of pointer type, (*T)(nil) and the like.
 func (p *Parser) extractTypeFromNew(expr ast.Expr, info *types.Info) types.Type {
-	call, ok := expr.(*ast.CallExpr)
-	if !ok {
-		return nil
+	expr = ast.Unparen(expr)
+	if call, ok := expr.(*ast.CallExpr); ok && len(call.Args) == 1 {
+		if ident, isIdent := call.Fun.(*ast.Ident); isIdent && ident.Name == "new" {
+			if tv, found := info.Types[call.Args[0]]; found && tv.IsType() {
+				return types.NewPointer(tv.Type)
+			}
+		}
 	}
 
-	ident, ok := call.Fun.(*ast.Ident)
-	if !ok || ident.Name != "new" {
-		return nil
-	}
-
-	if len(call.Args) != 1 {
-		return nil
-	}
-
-	if tv, ok := info.Types[call.Args[0]]; ok {
-		return types.NewPointer(tv.Type)
+	if tv, ok := info.Types[expr]; ok && tv.IsValue() {
+		if ptr, isPtr := tv.Type.(*types.Pointer); isPtr {
+			return ptr
+		}
 	}
 
 	return nil
